@@ -25,6 +25,34 @@ LISTS = [([1, 2], "list:[1, 2]", "[1, 2]"), ([], "list:[]", "[]"), ([7], "list:[
 FUNCS = ["echo", "last", "nothing", "fail", "nolib", "nosym", "echo2"]
 
 
+def qarg(text):
+    """a string argument in the quoted form of the binary file format"""
+    return '"' + text.replace("\\", "\\\\").replace('"', '\\"').replace("\n", "\\n").replace("\r", "\\r").replace("\t", "\\t") + '"'
+
+
+# messages a foreign function may raise (probe function fail_with raises its first argument): whatever the text - empty, blank, several
+# lines, quotes, non-ASCII, long - the call is a failure, nothing after it runs, and the report carries every line of the message
+ERR_MESSAGES = ["", " ", "x", "two\nlines", "\nleading-newline", "trailing-newline\n", "\n", "three\nseparate\nlines", "tab\there", 'quo"ted',
+                "back\\slash", "h\u00e9llo \U0001F600", "colon: {0} {} %s", "L" * 300, "0", "false", "nil", "Error: fake", "Caused by:\n    0: fake"]
+ERR_POSITIONS = ["entry", "entry-tail", "helper", "helper-tail"]
+
+
+def err_program(position, message, lib):
+    call = [("make_str", qarg(message)), ("call_lib", lib, "fail_with")]
+    sentinel = [("void",), ("make_str", "SENTINEL"), ("printn", "*"), ("void",)]
+    if position == "entry":
+        return asm([("__module__", call + [("printn", "*")] + sentinel + [("ret_mod",)])])
+    if position == "entry-tail":
+        return asm([("__module__", call + [("ret",)])])
+    if position == "helper":
+        return asm([("__module__", [("make_function", "a.mmm#h"), ("call",), ("pop",)] + sentinel + [("ret_mod",)]),
+                    ("h", call + [("printn", "*")] + sentinel + [("void",), ("ret",)])])
+    if position == "helper-tail":
+        return asm([("__module__", [("make_function", "a.mmm#h"), ("call",), ("printn", "*")] + sentinel + [("ret_mod",)]),
+                    ("h", call + [("ret",)])])
+    raise ValueError(position)
+
+
 def ins(op, *args):
     b = bytes([OP[op]])
     if args:
@@ -194,7 +222,7 @@ class C19(Check):
     rule = ("all argument vectors of length 0..L over {int,bigint,float,byte,bool,str} (two values per kind at "
             "length <=2, one value per kind above) x probe functions {echo, last, nothing, fail, missing library, "
             "missing symbol, two chained calls}; all sequences of 2 (thorough: 3) foreign calls over {library A, library B with the same "
-            "symbols, missing library} x {echo, last, nothing, fail, missing symbol}; every call position {last instruction of the entry function, tail of a "
+            "symbols, missing library} [and 19 error messages (empty, blank, several lines, quotes, backslash, non-ASCII, 300 characters, look-alikes of the report's own lines) raised through probe function fail_with in 4 positions (entry function, tail of it, helper function, tail of helper)]  x {echo, last, nothing, fail, missing symbol}; every call position {last instruction of the entry function, tail of a "
             "helper function, helper storing the result first, helper called twice, callback of list.map, callback of list.filter, result popped, "
             "result stored} x {echo, last, fail, missing library, missing symbol}; each assembled as a binary .mmm and executed with `mscript execute`. "
             "Non-trivial = vector length >= 1; distinct = distinct (vector, function).")
@@ -227,7 +255,8 @@ class C19(Check):
         gcl = [(vec, f) for n in (1, 2, 3) for vec in itertools.product(syms, repeat=n) if any(k == "list" for k, _ in vec)
                for f in ("echo", "last", "nothing", "fail", "echo2")]
         libl = [("lib", "named", i) for i in range(len(LIB_NAMES))] + [("lib", "ghost", i) for i in range(len(LIB_GHOSTS))]
-        ls = [("L0-len<=2", list(gen(2))), ("L0b-call-sequences-of-2", seq2), ("L0c-call-positions", posl), ("L0d-library-file-names", libl), ("L0e-list-arguments-len<=3", gcl),
+        errl = [("err", p_, i) for p_ in ERR_POSITIONS for i in range(len(ERR_MESSAGES))]
+        ls = [("L0f-error-messages-x-positions", errl), ("L0-len<=2", list(gen(2))), ("L0b-call-sequences-of-2", seq2), ("L0c-call-positions", posl), ("L0d-library-file-names", libl), ("L0e-list-arguments-len<=3", gcl),
               ("L1-len<=4", gen(4, 3))]
         if L > 4:
             ls.append(("L1b-call-sequences-of-3", [("seq", c) for c in itertools.product(range(len(SEQ_CALLS)), repeat=3)]))
@@ -241,6 +270,8 @@ class C19(Check):
             return {"sequence": [f"{SEQ_CALLS[i][1]}@{SEQ_CALLS[i][0]}" for i in case[1]]}
         if case[0] == "pos":
             return {"position": case[1], "function": case[2]}
+        if case[0] == "err":
+            return {"position": case[1], "message": ERR_MESSAGES[case[2]][:60]}
         if case[0] == "lib":
             return {"library": LIB_NAMES[case[2]] if case[1] == "named" else list(LIB_GHOSTS[case[2]]), "kind": case[1]}
         vec, f = case
@@ -301,6 +332,32 @@ class C19(Check):
         return {"outcome": ("pos-ok" if func in ("echo", "last") else "pos-err") + ("-DIFF" if viol else ""), "viol": viol,
                 "nontrivial": True, "tags": ["pos", f"pos-{position}"]}
 
+    def run_err(self, case):
+        _, position, mi = case
+        message = ERR_MESSAGES[mi]
+        prog = err_program(position, message, build.PROBE_LIB)
+        d = driver.fresh_dir()
+        driver.write_files(d, {"a.mmm": prog})
+        res = driver.run(["execute", "a.mmm"], d, env={"MSCRIPT_VERIF_TYPED_PRINT": "1"})
+        viol = []
+        detail = {"case": self.describe(case), "message": message, "files": {"a.mmm": prog}, "res": res.brief()}
+
+        def bad(kind, what):
+            viol.append({"sig": {"kind": kind, "position": position, "message-class": "empty" if not message.strip() else "multi-line" if "\n" in message.strip("\n") else "plain"},
+                         "what": f"fail_with({message[:40]!r}) at {position}: {what}", "detail": detail})
+        if res.exit == 0 or res.cls != "error":
+            bad("fault-not-error", f"an error raised by the foreign function must stop the program with a run-time error; got {res.cls} (exit {res.exit}), stdout {res.lines()}")
+        else:
+            if "SENTINEL" in res.out or res.lines():
+                bad("ran-on", f"instructions after the failing call ran: {res.lines()}")
+            if not driver.runtime_banner(res):
+                bad("no-banner", "no run-time error banner")
+            err = res.err.replace("\r", "")
+            missing = [ln for ln in message.split("\n") if ln.strip() and ln.strip() not in err]
+            if missing:
+                bad("message-lost", f"the report does not carry these lines of the message: {missing[:3]}")
+        return {"outcome": "err-ok" if not viol else "err-DIFF", "viol": viol, "nontrivial": True, "tags": ["err", f"err-{position}"]}
+
     def run_lib(self, case):
         import os
         import shutil
@@ -344,6 +401,8 @@ class C19(Check):
             return self.run_seq(case)
         if case[0] == "pos":
             return self.run_pos(case)
+        if case[0] == "err":
+            return self.run_err(case)
         vec, func = case
         d = driver.fresh_dir()
         prog = assemble(vec, func, build.PROBE_LIB)
@@ -399,7 +458,7 @@ class C19(Check):
 
     def finish(self, stats, tier):
         errs = []
-        for f in FUNCS + ["seq", "pos", "lib-named", "lib-ghost"] + [f"pos-{p_}" for p_ in POSITIONS]:
+        for f in FUNCS + ["seq", "pos", "err", "lib-named", "lib-ghost"] + [f"pos-{p_}" for p_ in POSITIONS]:
             if not stats["tags"].get(f):
                 errs.append(f"vacuity: function {f} never exercised")
         return errs
